@@ -4,7 +4,7 @@ For every /verif/seeded/<id>/ (patch.diff + meta.json naming the property) a scr
 git worktree of /repo's HEAD is created OUTSIDE /repo and /verif, the patch is applied
 there, the property's check is run against that tree (VERIF_REPO=<worktree>, evidence
 redirected to scratch), and the worktree is removed again.  /repo itself is never
-touched.  Results go to evidence/sensitivity.json; the exit status is 0 unless the
+touched.  Results go to seeded/sensitivity_results.json; the exit status is 0 unless the
 battery itself could not run (it is not a registered property check).
 
 usage: ./check sensitivity [tier] [id ...]
@@ -95,8 +95,7 @@ def main(argv: list) -> int:
     finally:
         shutil.rmtree(base, ignore_errors=True)
         subprocess.run(["git", "-C", "/repo", "worktree", "prune"], capture_output=True)
-    core.EVIDENCE.mkdir(parents=True, exist_ok=True)
-    path = core.EVIDENCE / "sensitivity.json"
+    path = SEEDED / "sensitivity_results.json"  # not under evidence/: that directory holds per-property evidence only
     merged = {}
     if path.exists():
         try:
